@@ -57,6 +57,9 @@ def build(case):
     if style == 'method':
         exec(f"class C:\n    def f({src_of(sig, names, 'self')}): return 1", ns)
         return ns['C']().f
+    if style == 'method_noself':   # a bound method whose first declared parameter is *args (it receives the instance)
+        exec(f"class C:\n    def f({src_of(sig, names)}): return 1", ns)
+        return ns['C']().f
     if style == 'partial_pos':     # one extra leading positional parameter, pre-bound
         exec(f"def f({src_of([('PO' if sig and sig[0][0] == 'PO' else 'PK', False)] + sig, ['q'] + names)}): return 1", ns)
         return functools.partial(ns['f'], 7)
@@ -107,7 +110,7 @@ class C19(Prop):
     sizes = {'quick': 0, 'thorough': 0}
     shard = 400
     rule = ('ALL well-formed signatures of <= L parameters over the five kinds x defaults (L=3 quick, 4 thorough), as plain '
-            'functions, bound methods, partials with positional and keyword pre-binding, x all positional counts 0..n+2 x '
+            'functions, bound methods (also ones declared with *args first), partials with positional and keyword pre-binding, x all positional counts 0..n+2 x '
             'all subsets of present / missing / unknown names (named calls also with null and falsy values); exhaustive; each case carries the outcome of the actual '
             'Python call; non-trivial = signature has >= 2 parameters; distinct = distinct (style, signature, call)')
     assumptions = ('inspect.signature is trusted to report the parameters of methods and partials',)
@@ -132,6 +135,8 @@ class C19(Prop):
                 for i, (k, d) in enumerate(sig):
                     if k in ('PK', 'KO') and (l <= 3):
                         styles.append(('partial_kw', names[i]))
+                if sig and sig[0][0] == 'VP':
+                    styles.append(('method_noself', None))
                 for style, pre in styles:
                     if style != 'plain' and l == L and tier == 'thorough' and L == 4 and style != 'method':
                         continue
@@ -144,7 +149,7 @@ class C19(Prop):
                             self._count += 1
                             yield {'style': style, 'sig': [list(x) for x in sig], 'prebind': pre,
                                    'call': {'given': list(given)}}
-                            if given and style in ('plain', 'method'):
+                            if given and style in ('plain', 'method', 'method_noself'):
                                 self._count += 1
                                 yield {'style': style, 'sig': [list(x) for x in sig], 'prebind': pre,
                                        'call': {'given': list(given), 'val': ('none', 'zero', 'empty', 'false', 'list', 'none')[self._count % 6]}}
